@@ -16,8 +16,27 @@ statement by statement in program order, maintaining for every module the state
 DONE modules), plus every function-local ("deferred") import replayed from every node in which
 its module is DONE.
 
-Public API: :func:`analyse`, :class:`ImportReport`, :class:`ImportFailure`.
-Standard library only.
+Public API: :func:`analyse`, :class:`ImportReport`, :class:`ImportFailure`; for replaying one
+concrete client sequence: :class:`ImportMachine` / :class:`SequenceResult`.  Standard library only.
+
+Where the machine deviates from CPython (see selftest/importsim_validate.py for the comparison):
+
+* over-approximation (may report a failure CPython does not hit): all branches of module-level
+  ``if``/``try``/``for``/``while``/``match`` and of walked callee bodies are treated as executed, in
+  order; an import that fails inside ``try/except ImportError`` is still reported (plus a
+  side-condition); a walked callee is walked whatever its arguments are; generator expressions are
+  treated as consumed immediately.
+* under-approximation (may miss a failure): callees are followed only when they resolve
+  syntactically to a package def/class (module-level name, ``Cls.meth``, ``self./cls.meth``,
+  ``super().meth``, ``pkg.mod.func``, simple aliases) up to depth 6 -- calls made *by* stdlib code
+  back into the package (``dataclass`` calling ``__set_name__``-like hooks, ``functools`` wrappers,
+  metaclass ``__call__``/``__prepare__``, descriptors, ``__getattr__``, callbacks passed as
+  arguments, the function returned by a decorator factory) are not followed; objects reached
+  through containers or function results are opaque; unbound *local* variables are not checked;
+  after a failed import the partially cleaned ``sys.modules`` is not modelled (the sequence stops).
+* exact by construction only if the syntactic side conditions hold (no conditional / guarded
+  imports, no ``sys.modules``/``importlib``/``__import__``, no rebinding of imported names, no
+  ``import *``, no module ``__getattr__``); each violation is reported as a ``side-condition``.
 """
 
 from __future__ import annotations
@@ -29,7 +48,7 @@ import sys
 from collections import ChainMap, deque
 from dataclasses import dataclass, field
 
-__all__ = ["ImportFailure", "ImportReport", "analyse"]
+__all__ = ["ImportFailure", "ImportReport", "ImportMachine", "SequenceResult", "analyse"]
 
 ABSENT, EXEC, DONE = "ABSENT", "EXEC", "DONE"
 
@@ -444,7 +463,7 @@ def _collect_deferred(mi: ModInfo) -> None:
         for s in ss:
             if isinstance(s, (ast.FunctionDef, ast.AsyncFunctionDef)):
                 q = f"{qual}.{s.name}" if qual else s.name
-                walk(s.body, q + ".<locals>" if False else q, True)
+                walk(s.body, q, True)
                 continue
             if isinstance(s, ast.ClassDef):
                 q = f"{qual}.{s.name}" if qual else s.name
@@ -762,6 +781,8 @@ class Machine:
         mi = self.mods[ctx.mod]
         src = mi.resolve_from(s)
         if src == "__future__":
+            for a in s.names:  # the _Feature objects really are bound in the module namespace
+                self.bind(a.asname or a.name, ExtVal(f"__future__.{a.name}"), ctx)
             return
         if not self.in_scope(src):
             for a in s.names:
@@ -1232,12 +1253,11 @@ class Machine:
             ci.bases.append(self.ev(b, ctx))
             ci.base_texts.append(ast.unparse(b))
         for k in s.keywords:
-            kv = self.ev(k.value, ctx)
+            self.ev(k.value, ctx)
             if k.arg == "metaclass":
+                ci.bases.append(None)
                 ci.base_texts.append("metaclass=" + ast.unparse(k.value))
-                _ = kv
         c = ctx.child()
-        c.is_comp = False
         c.cls = ci
         c.class_locals = set(_CLASS_DUNDERS)
         self.exec_block(s.body, c)
@@ -1255,4 +1275,329 @@ class Machine:
         self.bind(s.name, ci, ctx)
 
 
-# <<<PART4>>>
+# --------------------------------------------------------------------------------------------------
+# exploration
+# --------------------------------------------------------------------------------------------------
+
+
+def discover(pkg_dir: str, package: str) -> dict[str, ModInfo]:
+    """All modules of the regular package rooted at ``pkg_dir`` (sub-packages included)."""
+    mods: dict[str, ModInfo] = {}
+    pkg_dir = os.path.abspath(pkg_dir)
+    if not os.path.isfile(os.path.join(pkg_dir, "__init__.py")):
+        raise ValueError(f"{pkg_dir} is not a regular package (no __init__.py)")
+    for root, dirs, files in os.walk(pkg_dir):
+        dirs[:] = sorted(
+            d for d in dirs if os.path.isfile(os.path.join(root, d, "__init__.py")) and d != "__pycache__"
+        )
+        rel = os.path.relpath(root, pkg_dir)
+        prefix = package if rel == "." else package + "." + rel.replace(os.sep, ".")
+        for f in sorted(files):
+            if not f.endswith(".py"):
+                continue
+            stem = f[:-3]
+            if not stem.isidentifier():
+                continue
+            name = prefix if stem == "__init__" else f"{prefix}.{stem}"
+            mods[name] = ModInfo(name, os.path.join(root, f), stem == "__init__", package)
+    return dict(sorted(mods.items()))
+
+
+class _Explorer:
+    def __init__(self, mods: dict[str, ModInfo], package: str, tier: str) -> None:
+        self.mods = mods
+        self.package = package
+        self.tier = tier
+        self.m = Machine(mods, package)
+        self.failures: dict[str, ImportFailure] = {}
+        self.final_sig: dict[str, tuple[frozenset, tuple[str, ...]]] = {}
+        self.transitions = 0
+        self.deferred_replayed = 0
+        self.nodes: set[frozenset[str]] = {frozenset()}
+        self.sequences: list[list[str]] = []
+        self.verdicts: dict[str, str] = {}
+        self.deferred = [d for mi in mods.values() for d in mi.deferred]
+        self.replayable = [d for d in self.deferred if d.touches_package]
+
+    # -- one transition --------------------------------------------------------------------------
+
+    def record(self, f: ImportFailure) -> None:
+        k = f.key()
+        old = self.failures.get(k)
+        if old is None or len(f.first) < len(old.first):
+            self.failures[k] = f
+
+    def step(self, world: World, path: tuple[str, ...], label: str, client_text: str, action) -> World | None:
+        m = self.m
+        m.w = world.copy()
+        m.path = path + (label,)
+        m.frames = [("<client>", 0, client_text)]
+        m.active = set()
+        m.visited = set()
+        self.transitions += 1
+        try:
+            action()
+        except _Fail as e:
+            self.record(e.failure)
+            return None
+        w = m.w
+        assert all(s != EXEC for s in w.state.values()), "import stack not unwound"
+        for mod in w.executed:
+            pub = frozenset(
+                (n, _origin(w.values[mod].get(n))) for n in w.bound[mod] if not n.startswith("_")
+            )
+            old = self.final_sig.setdefault(mod, (pub, m.path))
+            if old[0] != pub:
+                a = {n for n, _ in old[0]}
+                b = {n for n, _ in pub}
+                if a != b:
+                    diff = f"names differ: only in {list(old[1])}: {sorted(a - b)}; only in {list(m.path)}: {sorted(b - a)}"
+                else:
+                    diff = "same names, different objects: " + ", ".join(
+                        sorted(n for n, _ in old[0] ^ pub)
+                    )
+                self.record(ImportFailure(K_ORDER, m.path, [(mod, 0, "<public bindings>")], diff))
+        return w
+
+    def import_edge(self, world: World, path: tuple[str, ...], target: str) -> World | None:
+        return self.step(world, path, target, f"import {target}", lambda: self.m.import_dotted(target))
+
+    def deferred_edge(self, world: World, path: tuple[str, ...], d: DeferredImport) -> World | None:
+        def act() -> None:
+            ctx = Ctx(d.module)
+            ctx.depth = 1  # function mode: executes inside a called function body
+            ctx.func_locals = set()
+            ctx.local_values = ChainMap()
+            self.m.exec_stmt(d.node, ctx)
+
+        self.deferred_replayed += 1
+        label = f"call {d.module}.{d.qualname}"
+        return self.step(world, path, label, f"{d.module}.{d.qualname}(...)", act)
+
+    @staticmethod
+    def fmt(label: str, w: World) -> str:
+        return f"{label} => [{', '.join(w.executed)}]"
+
+    # -- tiers -----------------------------------------------------------------------------------
+
+    def quick(self) -> None:
+        names = sorted(self.mods)
+        w0 = World()
+        all_done_replayed = False
+        for first in names:
+            w1 = self.import_edge(w0, (), first)
+            self.verdicts[first] = "ok" if w1 is not None else "fail"
+            if w1 is None:
+                self.sequences.append([f"import {first} => FAIL"])
+                continue
+            self.nodes.add(w1.done())
+            seq = [self.fmt(f"import {first}", w1)]
+            for d in self.replayable:
+                if w1.state.get(d.module) == DONE:
+                    w2 = self.deferred_edge(w1, (first,), d)
+                    if w2 is not None:
+                        self.nodes.add(w2.done())
+            cur, path = w1, (first,)
+            complete = True
+            for nxt in names:
+                if cur.state.get(nxt) == DONE:
+                    continue
+                w2 = self.import_edge(cur, path, nxt)
+                if w2 is None:
+                    seq.append(f"import {nxt} => FAIL")
+                    complete = False
+                    break
+                seq.append(self.fmt(f"import {nxt}", w2))
+                cur, path = w2, path + (nxt,)
+                self.nodes.add(cur.done())
+            self.sequences.append(seq)
+            if complete and not all_done_replayed:
+                all_done_replayed = True
+                for d in self.replayable:
+                    self.deferred_edge(cur, path, d)
+
+    def thorough(self) -> None:
+        names = sorted(self.mods)
+        start: frozenset[str] = frozenset()
+        steps: dict[frozenset[str], list[str]] = {start: []}
+        queue: deque[tuple[frozenset[str], World, tuple[str, ...]]] = deque([(start, World(), ())])
+        order: list[frozenset[str]] = []
+        while queue:
+            node, w, path = queue.popleft()
+            order.append(node)
+            for nxt in names:
+                if nxt in node:
+                    continue
+                w2 = self.import_edge(w, path, nxt)
+                if not path:
+                    self.verdicts[nxt] = "ok" if w2 is not None else "fail"
+                self._enqueue(node, w2, path, nxt, f"import {nxt}", steps, queue)
+            for d in self.replayable:
+                if d.module in node:
+                    w2 = self.deferred_edge(w, path, d)
+                    label = f"call {d.module}.{d.qualname}"
+                    self._enqueue(node, w2, path, label, label, steps, queue)
+        self.nodes = set(steps)
+        # sample: all first-import nodes plus the most recently discovered (longest) paths
+        firsts = [n for n in order if len(steps[n]) == 1]
+        tail = [n for n in order if len(steps[n]) > 1][-12:]
+        self.sequences = [steps[n] for n in firsts + tail]
+
+    def _enqueue(self, node, w2, path, label, shown, steps, queue) -> None:
+        if w2 is None:
+            return
+        n2 = w2.done()
+        if n2 not in steps:
+            steps[n2] = steps[node] + [self.fmt(shown, w2)]
+            queue.append((n2, w2, path + (label,)))
+
+
+def analyse(pkg_dir: str, package: str | None = None, tier: str = "quick") -> ImportReport:
+    """Explore every import order of the package in ``pkg_dir`` on the abstract import machine."""
+    if tier not in ("quick", "thorough"):
+        raise ValueError("tier must be 'quick' or 'thorough'")
+    pkg_dir = os.path.abspath(pkg_dir)
+    package = package or os.path.basename(pkg_dir.rstrip(os.sep))
+    mods = discover(pkg_dir, package)
+    side: list[ImportFailure] = []
+    seen_side: set[tuple[str, str]] = set()
+    for mi in mods.values():
+        _collect_deferred(mi)
+        for f in _side_conditions(mi):
+            k = (f.key(), f.detail)
+            if k not in seen_side:
+                seen_side.add(k)
+                side.append(f)
+    ex = _Explorer(mods, package, tier)
+    old_limit = sys.getrecursionlimit()
+    sys.setrecursionlimit(max(old_limit, 10000))
+    try:
+        if tier == "quick":
+            ex.quick()
+        else:
+            ex.thorough()
+    finally:
+        sys.setrecursionlimit(old_limit)
+    failures = sorted(ex.failures.values(), key=lambda f: (len(f.first), f.first, f.key()))
+    return ImportReport(
+        package=package,
+        modules=sorted(mods),
+        tier=tier,
+        failures=failures,
+        side_conditions=side,
+        states=len(ex.nodes),
+        transitions=ex.transitions,
+        deferred=[(d.module, d.qualname, d.lineno, d.text) for d in ex.deferred],
+        sequences_sampled=ex.sequences[:30],
+        import_time_reads=ex.m.reads,
+        statements=ex.m.statements,
+        deferred_replayed=ex.deferred_replayed,
+        callee_walks=ex.m.callee_walks,
+        depth_cutoffs=ex.m.depth_cutoffs,
+        first_import_verdicts=dict(sorted(ex.verdicts.items())),
+    )
+
+
+@dataclass
+class SequenceResult:
+    steps: list[str]
+    failed_step: int  # index into steps, -1 if every step succeeded
+    failure: ImportFailure | None
+    executed: list[list[str]]  # per successful step: modules executed, in order
+    public_names: dict[str, list[str]]  # per DONE module: public names bound (after the last ok step)
+
+
+class ImportMachine:
+    """Replay one concrete client sequence (used by the validation harness and for debugging).
+
+    A step is either a module name (``import <module>``) or ``"call <module>.<qualname>"`` which
+    replays, in line order, the function-local imports of that function.
+    """
+
+    def __init__(self, pkg_dir: str, package: str | None = None) -> None:
+        pkg_dir = os.path.abspath(pkg_dir)
+        self.package = package or os.path.basename(pkg_dir.rstrip(os.sep))
+        self.mods = discover(pkg_dir, self.package)
+        for mi in self.mods.values():
+            _collect_deferred(mi)
+
+    def run_sequence(self, steps: list[str]) -> SequenceResult:
+        ex = _Explorer(self.mods, self.package, "sequence")
+        w = World()
+        path: tuple[str, ...] = ()
+        executed: list[list[str]] = []
+        failed = -1
+        old_limit = sys.getrecursionlimit()
+        sys.setrecursionlimit(max(old_limit, 10000))
+        try:
+            for i, st in enumerate(steps):
+                nw: World | None = w
+                if st.startswith("call "):
+                    target = st[5:].strip()
+                    ds = [d for d in ex.deferred if f"{d.module}.{d.qualname}" == target]
+                    if not ds:
+                        raise ValueError(f"no function-local import in {target}")
+                    if w.state.get(ds[0].module) != DONE:
+                        raise ValueError(f"{ds[0].module} is not imported before {st!r}")
+                    ran: list[str] = []
+                    for d in ds:
+                        nw = ex.deferred_edge(nw, path, d)
+                        if nw is None:
+                            break
+                        ran.extend(nw.executed)
+                    if nw is not None:
+                        nw.executed = ran
+                else:
+                    nw = ex.import_edge(w, path, st)
+                if nw is None:
+                    failed = i
+                    break
+                executed.append(list(nw.executed))
+                w, path = nw, path + (st,)
+        finally:
+            sys.setrecursionlimit(old_limit)
+        failure = None
+        if failed >= 0:
+            cands = [f for f in ex.failures.values() if f.kind != K_ORDER]
+            failure = cands[0] if cands else next(iter(ex.failures.values()))
+        public = {
+            m: sorted(n for n in w.bound[m] if not n.startswith("_"))
+            for m in sorted(w.state)
+            if w.state[m] == DONE
+        }
+        return SequenceResult(list(steps), failed, failure, executed, public)
+
+
+def _main(argv: list[str]) -> int:
+    import argparse
+
+    ap = argparse.ArgumentParser(description="abstract import machine")
+    ap.add_argument("pkg_dir")
+    ap.add_argument("--package", default=None)
+    ap.add_argument("--tier", default="quick", choices=("quick", "thorough"))
+    ap.add_argument("-v", "--verbose", action="store_true")
+    a = ap.parse_args(argv)
+    r = analyse(a.pkg_dir, a.package, a.tier)
+    print(
+        f"importsim package={r.package} tier={r.tier} modules={len(r.modules)} states={r.states} "
+        f"transitions={r.transitions} statements={r.statements} reads={r.import_time_reads} "
+        f"deferred={len(r.deferred)} replayed={r.deferred_replayed} callee_walks={r.callee_walks} "
+        f"depth_cutoffs={r.depth_cutoffs} failures={len(r.failures)} side_conditions={len(r.side_conditions)}"
+    )
+    print("failing first imports:", r.failing_first_imports())
+    for f in r.failures:
+        print("FAIL", f.render())
+    for f in r.side_conditions:
+        print("SIDE", f.render())
+    if a.verbose:
+        for d in r.deferred:
+            print("DEFERRED", d)
+        for s in r.sequences_sampled:
+            print("SEQ")
+            for st in s:
+                print("   ", st)
+    return 0 if r.ok else 1
+
+
+if __name__ == "__main__":
+    raise SystemExit(_main(sys.argv[1:]))
